@@ -77,6 +77,12 @@ PROPS = {
     "C02": {
         "verus": [("directory_lookup", ["Directory.lookup", "Directory.lookup_with_info", "Directory.get_lookup_info", "Directory.build_lookup_info", "Directory.derive_commitment_key",
                                         "Directory.batch_lookup", "lemma_the_info", "get_marker_version", "Azks.get_latest_epoch"]), ("verify_lookup", ["lookup_verify"])],
+        "search": True,
+        "always_search": True,
+        "bounded_search": [{"obligation": "replay/c0203#all_answers",
+                            "bound": "8 labels (sequential insertion, single-threaded runtime) and 48 labels (thorough: 96; parallel insertion and parallel VRF labelling on a 4-worker runtime), two versions each; every "
+                                     "lookup and key-history (Complete, MostRecent(1), MostRecent(5)) answer must verify to the true latest value / versions; both configurations - a cross-check of the whole statement "
+                                     "for what lies between the verified units (tree contents, VRF labelling of a batch)"}],
         "scope": "partial (server-side ASSEMBLY of a lookup answer + agreement with the verifier; not the tree contents): Directory::lookup reads the epoch record once and that one record decides the epoch of "
                  "the answer, the state filter, the tree the proofs are taken from and the root hash returned with them; get_lookup_info selects the newest state NOT NEWER than that epoch (LeqEpoch) and a label "
                  "without such a state gets an error, never a proof; build_lookup_info asks the VRF for exactly the triple (Fresh, v), (Fresh, 2^floor(log2 v)), (Stale, v) - the same `plog` the verifier's contract "
@@ -94,7 +100,13 @@ PROPS = {
     "C03": {
         "verus": [("directory_lookup", ["Directory.create_single_update_proof", "Directory.key_history__head", "Directory.key_history__tail", "Directory.derive_commitment_key", "lemma_min_max",
                                         "lemma_mask_is_filter", "Azks.get_latest_epoch"]),
-                  ("verify_history", ["verify_single_update_proof"])],
+                  ("verify_history", ["verify_single_update_proof", "verify_with_history_params", "lemma_consecutive"])],
+        "search": True,
+        "always_search": True,
+        "bounded_search": [{"obligation": "replay/c0203#all_answers",
+                            "bound": "8 labels (sequential insertion, single-threaded runtime) and 48 labels (thorough: 96; parallel insertion and parallel VRF labelling on a 4-worker runtime), two versions each; every "
+                                     "lookup and key-history (Complete, MostRecent(1), MostRecent(5)) answer must verify to the true latest value / versions; both configurations - a cross-check of the whole statement "
+                                     "for what lies between the verified units (tree contents, VRF labelling of a batch)"}],
         "scope": "partial (server-side ASSEMBLY of a key-history answer from the selected states + agreement with the verifier; not the selection itself, not the tree contents): "
                  "create_single_update_proof fills an update proof for one stored state with the fields the verifier checks - epoch/version/value of the state, the VRF proof and membership proof of "
                  "(Fresh, version), for every version > 1 the membership proof and VRF proof of (Stale, version - 1) and for version 1 neither, and the commitment nonce; the tail of key_history (from the "
